@@ -266,6 +266,14 @@ pub fn stages(ctx: &Ctx) -> Vec<Stage> {
             cfg.dt_max *= rng.r(2.0, 20.0);
             cfg.t1 = cfg.t0 + cfg.dt_max * rng.log10(-0.7, 2.5);
         }
+        if rng.chance(0.04) {
+            // a step cap hundreds to thousands of times above what the tolerance accepts: the solver has
+            // to cut its first step a dozen times in a row before anything is yielded
+            cfg.dt_max *= rng.log10(2.0, 3.7);
+            cfg.dt_min = cfg.dt_max * 1e-12;
+            cfg.t1 = cfg.t0 + cfg.dt_max * rng.r(1.5, 4.0);
+            rep.count("random_cases_with_a_step_cap_far_above_the_accepted_step", 1);
+        }
         if rng.chance(0.1) {
             // an interval far from the origin: t + dt is then rounded to a coarser grid than dt itself
             let shift = rng.sign() * rng.log10(2.0, 5.0);
